@@ -1073,6 +1073,33 @@ func (g *c06Gen) witnesses() {
 			b.f.Close()
 		}
 	}
+	// DuplicateRowTo (round 5, theorem duplicate_sq_copies_exact): distinct single-row conditional formats / data validations on the
+	// source row AND on both adjacent rows, a two-row range across the source, two references in one sqref; target above (adjacent,
+	// two above, row 1), below (adjacent, beyond); compared object by object (transcript dump + oracle o4)
+	{
+		setup := [][]string{{"setint", "0", "A3", "33"}, {"setint", "0", "A4", "44"}, {"setint", "0", "B5", "55"},
+			{"cf", "0", hx("A3:B3"), "3"}, {"cf", "0", hx("A4:C4"), "4"}, {"cf", "0", hx("B5:D5"), "5"}, {"cf", "0", hx("E3:E4"), "6"},
+			{"cf", "0", hx("F4 H4:I4 F5"), "7"}, {"cf", "0", hx("G4:G5"), "8"},
+			{"dv", "0", hx("A3"), "whole"}, {"dv", "0", hx("B4:C4"), "list"}, {"dv", "0", hx("A5"), "whole"}, {"dv", "0", hx("D4:D5"), "list"}}
+		pairs := [][2]int{{4, 3}, {4, 2}, {4, 1}, {4, 5}, {4, 6}, {4, 9}, {3, 1}, {5, 4}, {5, 3}, {3, 5}}
+		o := c06New(nil, 1)
+		for _, st := range setup {
+			o.api(nil, st...)
+		}
+		o.f.Close()
+		for _, rr := range pairs {
+			g.dupRun(o, 0, rr[0], rr[1], false)
+		}
+		for _, rr := range pairs {
+			b := c06New(r, 1)
+			for _, st := range setup {
+				b.api(r, st...)
+			}
+			b.sync(r)
+			b.duprow(r, fmt.Sprintf("duprow 0 %d %d", rr[0], rr[1]))
+			b.f.Close()
+		}
+	}
 	// hyperlink at the limit
 	run(1, [][]string{{"link", "0", "A1048576", "ext"}, {"setint", "0", "A2", "1"}}, "insrows 0 1 1 f")
 }
